@@ -47,9 +47,12 @@ def run_variant(v):
         for rel, old, new in v["edits"]:
             p = os.path.join(d, rel)
             s = open(p).read()
-            if s.count(old) != 1:
-                return dict(v, ok=False, got=f"edit anchor matches {s.count(old)} times in {rel}", out="", wall=time.time() - t0)
-            s = s.replace(old, new)
+            if old == "<EOF>":          # append to the file
+                s = s + new
+            else:
+                if s.count(old) != 1:
+                    return dict(v, ok=False, got=f"edit anchor matches {s.count(old)} times in {rel}", out="", wall=time.time() - t0)
+                s = s.replace(old, new)
             if rel.endswith(".py"):
                 try:
                     compile(s, p, "exec")
